@@ -174,6 +174,9 @@ func (z *reader) Reset(r io.Reader, dict []byte) error {
 		} else {
 			z.decompressor = flate.NewReader(z.r)
 		}
+	} else if haveDict {
+		// the accelerated inflater ignores dictionaries: use the one that honours them
+		z.decompressor = flate.NewReaderDict(z.r, dict)
 	} else {
 		z.decompressor.(flate.Resetter).Reset(z.r, dict)
 	}
